@@ -10,6 +10,10 @@ def pool_batch(acc, batch, **kw):
     poolcheck.pool_batch(acc, batch, **kw)
 
 
+def prune_validation_batch(acc, batch, **kw):
+    poolcheck.prune_validation_batch(acc, batch, **kw)
+
+
 def real_trace_batch(acc, batch, **kw):
     poolcheck.real_trace_batch(acc, batch, **kw)
 
